@@ -65,6 +65,12 @@ def check(ctx):
     c16.r16_1(ctx, pf, loop, info16)
     c16.r16_2(ctx, pf, loop)
     ctx.not_decided.append("nothing of C20 beyond the TSV being tab-separated with columns read, haplotype, phase set, contig")
+    # mechanisms this property rests on (see shared.py): a change there is reported here as well
+    from . import shared as _sh
+
+    _sh.gaf_reader(ctx)
+    _sh.tag_parser(ctx)
+    _sh.cli_layer(ctx, "gaftools.cli.phase")
 
 
 def check_template(ctx, f, rec, st, p, parts, schema, extras, key_colon, table):
